@@ -676,6 +676,13 @@ class ExtType(Type):
             bound=self.type_bound(),
         )
 
+    def resolve(self, registry: ext.ExtensionRegistry) -> Type:
+        """Resolve opaque types nested in the type arguments."""
+        args = [arg.resolve(registry) for arg in self.args]
+        if args == self.args:
+            return self
+        return ExtType(self.type_def, args)
+
     def __str__(self) -> str:
         return _type_str(self.type_def.name, self.args)
 
